@@ -431,6 +431,27 @@ def run(rep):
             v = v[2][0][2][0]
         for meth, ax in ((".sort_index", None), (".reindex", None)):
             pass
+    # inferred number of categories = number of DISTINCT labels over both axes (a label may be missing from one axis only)
+    for p_ in cpaths:
+        if not any(c == ('call', 'is', (('sym', 'ncat'), ('sym', 'None'))) and t for c, t in p_.conds):
+            continue
+        ncv = None
+        for c, t in pq.flat_conds(p_.conds):
+            if c[0] == 'cmp' and pq.call_named(c[2], "attr:shape") and c[3][0] == 'tuple' and len(c[3][1]) == 2 and c[3][1][0] == c[3][1][1]:
+                ncv = c[3][1][0]
+        if ncv is None:
+            continue
+        distinct = bool(pq.find(ncv, lambda x: pq.call_named(x, "unique") or pq.call_named(x, "union1d") or pq.call_named(x, "py.set") or pq.call_named(x, ".union")))
+        both = pq.mentions(ncv, lambda x: pq.call_named(x, "attr:index")) and pq.mentions(ncv, lambda x: pq.call_named(x, "attr:columns"))
+        counts_only = not distinct and not pq.find(ncv, lambda x: x[0] == 'call' and x[1] not in ("shape", "py.max", "py.min", "maximum", "minimum", "max", "min", "attr:index", "attr:columns", "attr:values", "attr:shape", "getitem", ".crosstab", "astype", "copy", "attr:size"))
+        if distinct and both:
+            rep.proved("R04.d", rel, "confusion_matrix", "inferred ncat counts the distinct labels of rows and columns together", line=cmf.lineno)
+        elif counts_only:
+            rep.violation("R04.d", rel, "confusion_matrix", "inferred ncat counts the distinct labels of rows and columns together",
+                          f"ncat := {show(ncv)[:120]} is built from the axis lengths only: a category present in the forecasts and another present in the observations only are not both counted", line=cmf.lineno)
+        else:
+            rep.undecided("R04.d", rel, "confusion_matrix", "inferred ncat counts the distinct labels of rows and columns together", show(ncv)[:120], line=cmf.lineno)
+        break
     # the table is returned without padding only when both its row count and its column count are known to reach ncat
     def axis_of(e, CM):
         if pq.call_named(e, "shape") and len(e[2]) == 2 and e[2][1][0] == 'num':
